@@ -72,10 +72,12 @@ OwnerOf(s, c) == IF Cur(s).cmd \in OwnersOf(s, c) THEN Cur(s).cmd
                  ELSE CHOOSE k \in OwnersOf(s, c) : \A j \in OwnersOf(s, c) : s.cmds[j].seq <= s.cmds[k].seq
 NewCmd(ev, n) == [cands |-> {ev.cands[i].claim : i \in DOMAIN ev.cands}, nodes |-> {ev.cands[i].node : i \in DOMAIN ev.cands},
                   pairs |-> ev.cands, need |-> ev.nrepl, repl |-> SeqSet(ev.repl) \ {"-"},
-                  state |-> IF ev.started THEN "active" ELSE "built", failure |-> "none", deleted |-> {}, delErr |-> FALSE,
+                  state |-> IF ev.started THEN "active" ELSE "built", failure |-> "none", deleted |-> {}, delErr |-> {}, delOk |-> {},
                   startedAt |-> ev.t, seq |-> n]
 SetFailure(c, f) == IF c.failure = "none" THEN [c EXCEPT !.failure = f] ELSE c
-FailSig(c, f, order) == f \o ":" \o order \o (IF c.delErr THEN ":partial-delete" ELSE "")
+\* partial delete: in the pass that is being judged the delete of some candidate kept failing (it never went through in this
+\* pass) while another candidate was deleted, now or in an earlier pass
+FailSig(c, f, order) == f \o ":" \o order \o (IF c.delErr \ c.delOk # {} THEN ":partial-delete" ELSE "")
 
 \* a replacement that is gone from the store without ever having reported Initialized fails every command in progress that waits for it
 VanishUpdate(s, name) ==
@@ -115,8 +117,8 @@ TApi ==
                  THEN [s1 EXCEPT !.cmds[k0] = IF ok THEN [@ EXCEPT !.repl = @ \cup {name}] ELSE SetFailure(@, "create")]
                  ELSE s1
            s3 == IF isQDelete
-                 THEN [s2 EXCEPT !.cmds[kd] = IF ok THEN [@ EXCEPT !.deleted = @ \cup {Ev.name}]
-                                              ELSE IF Ev.err # "NotFound" THEN [@ EXCEPT !.delErr = TRUE] ELSE @]
+                 THEN [s2 EXCEPT !.cmds[kd] = IF ok THEN [@ EXCEPT !.deleted = @ \cup {Ev.name}, !.delOk = @ \cup {Ev.name}]
+                                              ELSE IF Ev.err # "NotFound" THEN [@ EXCEPT !.delErr = @ \cup {Ev.name}] ELSE @]
                  ELSE s2
            \* 2. guards
            c == IF isQDelete THEN st.cmds[kd] ELSE [need |-> 0]
@@ -162,7 +164,10 @@ TBegin ==
        st' = IF ctl = "other" THEN st
              ELSE [Push(st, [ctl |-> ctl, cmd |-> k, injected |-> FALSE])
                      EXCEPT !.cmds = IF ctl = "start" /\ k \in Known(st)
-                                     THEN [@ EXCEPT ![k].state = "starting", ![k].startedAt = Ev.t] ELSE @]
+                                     THEN [@ EXCEPT ![k].state = "starting", ![k].startedAt = Ev.t]
+                                     ELSE IF ctl = "queue" /\ k \in Known(st)
+                                     THEN [@ EXCEPT ![k].delErr = {}, ![k].delOk = {}]     \* per pass
+                                     ELSE @]
     /\ UNCHANGED viol
 
 \* candidates of a command that are still live NodeClaims, as node records for Live_C08_RolledBack
